@@ -251,6 +251,12 @@ pub fn check_answers(views: &[GoView<'_>], out: &mut Outcome, prop_tag: &str) {
     let _ = prop_tag;
     for v in views {
         let g = v.go;
+        // The properties speak about positions that have a legal move. If the reference cannot
+        // know the position (malformed position command) or it has none, nothing is owed.
+        if v.pos.as_ref().is_none_or(|p| p.legal_moves().is_empty()) {
+            out.stats.inc("go_in_unknown_or_terminal_position_skipped");
+            continue;
+        }
         if g.refused {
             if v.earlier_all_answered {
                 out.violations.push(Violation::new(
